@@ -345,11 +345,13 @@ def main():
         for nant in (1, 2):
             jobs.append(('job_header', (asc, nant)))
     fine = [(L, intf, npol) for L in (1, 2, 4) for intf in (1, 2, 3) for npol in (1, 2)]
+    if ck.thorough:
+        fine += [(8, 1, 1), (8, 2, 2), (4, 4, 2), (3, 2, 1), (6, 1, 2)]
     for (L, intf, npol) in fine:
         if L == 4 and intf == 3 and not ck.thorough:
             continue
         jobs.append(('job_fine', (L, intf, npol, 2, intf * 2 + (1 if intf > 1 else 0))))
-    for (L, intf) in ((1, 1), (2, 1), (1, 2), (2, 3), (4, 2), (4, 1)):
+    for (L, intf) in ((1, 1), (2, 1), (1, 2), (2, 3), (4, 2), (4, 1)) + (((3, 2),) if ck.thorough else ()):
         for ncards, directio in ((3, None), (5, 0), (9, 1), (29, 1), (30, 1)):
             if not ck.thorough and (L, intf) in ((4, 2),) and ncards not in (3, 29):
                 continue
